@@ -215,6 +215,11 @@ pub fn materialise(c: &ByteCase) -> (Vec<u8>, Vec<u8>, bool) {
 fn check_case(c: &ByteCase, ctx: &mut Ctx, check_alloc: bool) -> Result<(), Fail> {
     let (shp, shx, unbacked) = materialise(c);
     let out = exercise(&shp, &shx, check_alloc)?;
+    // one input in eight is also put on disk and opened by path
+    if (shp.len() + 3 * shx.len() + c.muts.len()) % 8 == 0 {
+        ctx.class("also-by-path");
+        vlib::exercise::exercise_path(&shp, &shx, &crate::common::scratch_dir(), check_alloc)?;
+    }
     match &out.first_item {
         None => ctx.class(if out.opened { "opened/no-item" } else { "open-error-or-empty" }),
         Some(Ok(())) => ctx.class("first-item-ok"),
